@@ -241,6 +241,14 @@ def large_count_case(ctx, rng):
 
 def shard(ctx):
     rng, P = ctx.rng, ctx.params
+    from .. import faults, seeds
+    fr = __import__("random").Random("c05-failing-%d-%d" % (ctx.seed, ctx.index))
+    bad = []
+    for subrow in (False, True):
+        exh_, exd_, _ids = seeds.excel_pair(fr, subrow)
+        bad += [("exd.parse", (ctx.write("failing-%d-%d.exd" % (subrow, i), d),)) for i, d in enumerate(faults.damaged_variants(fr, exd_, 3))]
+        bad += [("exh.parse", (ctx.write("failing-%d-%d.exh" % (subrow, i), d),)) for i, d in enumerate(faults.damaged_variants(fr, exh_, 2))]
+    ctx.failing_calls_first(bad, before=("exd.parse", "exh.parse", "exd.read_row"), rate=0.02)
     for i in range(2 if ctx.tier == "quick" else 8):
         large_count_case(ctx, rng)
     for i in range(P["n"]):
